@@ -157,24 +157,29 @@ class StreamingHandler(AsyncCallbackHandler, AsyncIterator):
             if chunk is not None:
                 self.completion += chunk
 
-                # Check if the completion contains one of the stop chunks
-                for stop_chunk in self.stop:
-                    if stop_chunk in self.completion:
-                        # Make sure the stop chunk is not included
-                        self.completion = self.completion.split(stop_chunk)[0]
+                # Check if the completion contains one of the stop chunks; we cut at the
+                # one that occurs first (not at the one that is listed first).
+                stop_positions = [
+                    self.completion.find(stop_chunk)
+                    for stop_chunk in self.stop
+                    if stop_chunk in self.completion
+                ]
+                if stop_positions:
+                    # Make sure the stop chunk is not included
+                    self.completion = self.completion[: min(stop_positions)]
 
-                        # If the current chunk does add something new to the final completion
-                        # We push that as well.
-                        if len(self.completion) > len(prev_completion):
-                            self.current_chunk = self.completion[len(prev_completion) :]
-                            # The new part will be added again when it is processed
-                            self.completion = prev_completion
-                            await self.push_chunk(None)
+                    # If the current chunk does add something new to the final completion
+                    # We push that as well.
+                    if len(self.completion) > len(prev_completion):
+                        self.current_chunk = self.completion[len(prev_completion) :]
+                        # The new part will be added again when it is processed
+                        self.completion = prev_completion
+                        await self.push_chunk(None)
 
-                        # And we stop the streaming
-                        self.streaming_finished_event.set()
-                        self.top_k_nonempty_lines_event.set()
-                        return
+                    # And we stop the streaming
+                    self.streaming_finished_event.set()
+                    self.top_k_nonempty_lines_event.set()
+                    return
 
             if self.pipe_to:
                 asyncio.create_task(self.pipe_to.push_chunk(chunk))
